@@ -522,7 +522,7 @@ func init() {
 	vh.Register(&vh.Check{
 		ID: "C10", Level: "model_checking",
 		Technique: "schedule DFS (preemption-bounded, statement-granular scheduling points in the memory driver, inside badger transaction closures, in the balance manager and the pool service) of concurrent signed requests with a differential oracle: the outcome must equal that of some sequential permutation of the same requests executed on the real code; explicit-state BFS for snapshot immutability (every value handed out is deep-copied and re-compared after every later operation)",
-		Rule:      "11 scenarios of 2-3 concurrent calls drawn from {keep-alive of two clients sharing a host, duplicate keep-alive, same client twice, reconnect, link, withdraw, peer request} per driver, all interleavings within the preemption bound; judged on balances, wallet links, peer sets, payouts and per-call accept/reject; snapshots: all store op sequences up to the depth bound with multi-word amounts",
+		Rule:      "11 scenarios of 2-3 concurrent calls drawn from {keep-alive of two clients sharing a host, duplicate keep-alive, same client twice, reconnect, link, withdraw, peer request} per driver, all interleavings within the preemption bound; judged on balances, wallet links, peer sets, payouts and per-call accept/reject; snapshots: all store op sequences up to the depth bound with multi-word amounts; a connection closing under an in-flight request of its node (registries part of the compared state, deadlock = violation); concurrent callers over the socket transport",
 		Assumptions: []string{
 			"interleavings are explored under sequential consistency; data races in the Go memory-model sense are probed only by the separate free-running -race pass (units racepass/*), which can report a race but cannot prove absence",
 			"with the persistent driver a transaction-conflict error is a legitimate outcome of a call provided the failed call left no balance effect",
